@@ -54,6 +54,7 @@ class RefReceiver:
         self.dead = False
         self.why = None
         self.delivered = []
+        self.bad_frame = None
 
     def feed(self, data: bytes):
         out = []
@@ -74,6 +75,7 @@ class RefReceiver:
             pt = open_(self.key, nonce(self.ctr), hdr, body)
             if pt is None:
                 self.dead, self.why = True, "auth"
+                self.bad_frame = (hdr, body)      # the frame that failed to authenticate (for diagnostics)
                 break
             self.ctr += 1
             out.append(pt)
